@@ -1462,11 +1462,30 @@ func (d *Data) moveElementInLabels(ctx *datastore.VersionedCtx, batch storage.Ba
 	if err != nil {
 		return err
 	}
+	var delta DeltaModifyElements
 	if oldLabel == newLabel {
-		return nil
+		if oldLabel == 0 {
+			return nil
+		}
+		// the element stays on its label: its copy in the label list must still follow the move
+		tk := NewLabelTKey(oldLabel)
+		elems, err := getElementsNR(ctx, tk)
+		if err != nil {
+			return fmt.Errorf("err getting elements for label %d: %v", oldLabel, err)
+		}
+		if _, changed := elems.move(from, to, false); !changed {
+			return nil
+		}
+		if err := putBatchElements(batch, tk, elems); err != nil {
+			return fmt.Errorf("err putting moved label %d element: %v", oldLabel, err)
+		}
+		delta.Del = append(delta.Del, ElementPos{Label: oldLabel, Kind: moved.Kind, Pos: from})
+		delta.Add = append(delta.Add, ElementPos{Label: newLabel, Kind: moved.Kind, Pos: to})
+		evt := datastore.SyncEvent{Data: d.DataUUID(), Event: ModifyElementsEvent}
+		msg := datastore.SyncMessage{Event: ModifyElementsEvent, Version: ctx.VersionID(), Delta: delta}
+		return datastore.NotifySubscribers(evt, msg)
 	}
 
-	var delta DeltaModifyElements
 	if oldLabel != 0 {
 		tk := NewLabelTKey(oldLabel)
 		elems, err := getElementsNR(ctx, tk)
